@@ -40,6 +40,14 @@ REQUIRED_STATS = ['programs', 'resumes_compared', 'interrupts_delivered', 'condi
                   'embedded_runs', 'native_waiters']
 
 
+def value_of(spec):
+    """values of the program; {'exc': tag} is an exception *instance* used as a plain value
+    (an event that succeeds with it hands it over, it is not raised)"""
+    if isinstance(spec, dict) and 'exc' in spec:
+        return SimErr(spec['exc'])
+    return spec
+
+
 class GiveUp(Exception):
     """a process ran out of unique time digits"""
 
@@ -81,6 +89,10 @@ class Gen:
         self.k += 1
         return [self.rng.choice([0, 0, 1, 1, 2]), self.k]
 
+    def value(self, tag):
+        # now and then the value is an exception object (a value like any other)
+        return {'exc': tag} if self.rng.random() < 0.1 else tag
+
     def exhausted(self):
         return self.k >= self.MAX_DIGITS - 4
 
@@ -92,7 +104,7 @@ class Gen:
             # condition the two would race, so conditions take self-triggered events only)
             return {'m': 'event', 'ev': rng.choice(self.plain_events)}
         if roll < 0.8 or depth >= 1:
-            return {'m': 'timeout', 'd': self.duration(), 'value': 'tv%d' % self.k}
+            return {'m': 'timeout', 'd': self.duration(), 'value': self.value('tv%d' % self.k)}
         if roll < 0.9 and self.order:
             return {'m': 'proc', 'p': rng.choice(self.order)}
         return {'m': 'cond', 'how': rng.choice(['all', 'any']),
@@ -106,7 +118,7 @@ class Gen:
                 break
             roll = rng.random()
             if roll < 0.25:
-                steps.append({'op': 'timeout', 'd': self.duration(), 'value': 'v%d' % self.k})
+                steps.append({'op': 'timeout', 'd': self.duration(), 'value': self.value('v%d' % self.k)})
             elif roll < 0.4:
                 steps.append({'op': 'wait', 'ev': rng.choice(self.events)})
             elif roll < 0.52:
@@ -114,7 +126,7 @@ class Gen:
                               'members': [self.member() for _ in range(rng.choice([0, 1, 2, 2, 3]))]})
             elif roll < 0.66:
                 steps.append({'op': 'succeed', 'ev': rng.choice(self.plain_events), 'd': self.duration(),
-                              'value': 'sv%d' % self.k})
+                              'value': self.value('sv%d' % self.k)})
             elif roll < 0.72:
                 steps.append({'op': 'fail', 'ev': rng.choice(self.plain_events), 'd': self.duration(),
                               'tag': 'x%d' % self.k})
@@ -137,7 +149,7 @@ class Gen:
         if end < 0.12:
             steps.append({'op': 'raise', 'tag': 'r-%s' % name})
         else:
-            steps.append({'op': 'return', 'value': 'ret-%s' % name})
+            steps.append({'op': 'return', 'value': self.value('ret-%s' % name)})
         return steps
 
     def sanitise(self):
@@ -269,7 +281,7 @@ class World:
         if kind == 'event':
             return self.events[member['ev']]
         if kind == 'timeout':
-            return env.timeout(self.dur(member['d']), member['value'])
+            return env.timeout(self.dur(member['d']), value_of(member['value']))
         if kind == 'proc':
             return self.procs.get(member['p'])      # None: not spawned (yet) - left out
         members = [built for built in (self.build_member(sub) for sub in member['members'])
@@ -301,7 +313,7 @@ class World:
                 if op == 'nop':
                     pass
                 elif op == 'timeout':
-                    value = yield env.timeout(self.dur(step['d']), step['value'])
+                    value = yield env.timeout(self.dur(step['d']), value_of(step['value']))
                     log.append((index, env.now, self.outcome(value)))
                 elif op == 'wait':
                     value = yield self.events[step['ev']]
@@ -333,7 +345,7 @@ class World:
                     yield env.timeout(self.dur(step['d']))
                     if op == 'succeed':
                         try:
-                            self.events[step['ev']].succeed(step['value'])
+                            self.events[step['ev']].succeed(value_of(step['value']))
                             log.append((index, env.now, ('succeeded', step['ev'])))
                         except RuntimeError:
                             log.append((index, env.now, ('already-triggered', step['ev'])))
@@ -364,7 +376,7 @@ class World:
                     yield from settle()
                     raise SimErr(step['tag'])
                 elif op == 'return':
-                    return step['value']
+                    return value_of(step['value'])
             except self.Interrupt as interrupt:
                 self.stats['interrupts_delivered'] += 1
                 log.append((index, env.now, ('interrupted', repr(interrupt.cause))))
@@ -591,7 +603,7 @@ def embedded_family(case, spec, ref_world, stats):
         for index, when, entry in log:
             if entry[0] == 'succeeded':
                 step = spec['procs'][name][index]
-                triggered[entry[1]] = (when, ('value', repr(step['value'])))
+                triggered[entry[1]] = (when, ('value', repr(value_of(step['value']))))
             elif entry[0] == 'failed-event':
                 step = spec['procs'][name][index]
                 triggered[entry[1]] = (when, ('exception', step['tag']))
